@@ -122,6 +122,29 @@ AddConsR(r, x, v) == LET n == AncCount(v)
                          b == AddAncTerms(r, x, r.anc, n)
                      IN [b EXCEPT !.anc = r.anc + n, !.gen = r.gen \cup (r.anc..(r.anc + n - 1)), !.ncons = r.ncons + 1]
 
+\* ---------------- operators that are not in place (C05): copy the model operand, apply the in-place form -------------
+AddR(r, items) == IAddR(CopyR(r), items)                    \* self + other
+SubR(r, items) == ISubR(CopyR(r), items)                    \* self - other
+MulR(r, items) == IMulR(CopyR(r), items)                    \* self * other
+AddScalarR(r, c) == IAddScalarR(CopyR(r), c)
+SubScalarR(r, c) == AugAddR(CopyR(r), << >>, -c)            \* self[()] -= c
+MulScalarR(r, c) == IMulScalarR(CopyR(r), c)
+NegR(r) == MulScalarR(r, -1)                                \* -self == -1 * self == self * -1
+RSubR(r, items) == AddR(NegR(r), items)                     \* other - self == -1*self + other
+RSubScalarR(r, c) == AddScalarR(NegR(r), c)
+PowR(r, e) == LET d == CopyR(r) IN IPowR(d, ItemsOf(CopyR(d).ts), e)     \* d = copy; old = d.copy(); d *= old ...
+Divisible(r, c) == \A i \in 1..Len(r.ts) : r.ts[i][2] % Abs(c) = 0
+ExactDiv(v, c) == IF c < 0 THEN -(v \div (-c)) ELSE v \div c           \* v is a multiple of c
+DivR(r, c) == LET d == CopyR(r) IN FoldPut(d, [i \in 1..Len(d.ts) |-> <<KeySeq(d.ts[i][1]), ExactDiv(d.ts[i][2], c)>>], 1)
+BinR(name, r, items, refl) ==
+    CASE name = "add" -> AddR(r, items)                     \* other + self == self + other
+      [] name = "mul" -> MulR(r, items)                     \* other * self == self * other
+      [] name = "sub" -> IF refl THEN RSubR(r, items) ELSE SubR(r, items)
+BinScalarR(name, r, c, refl) ==
+    CASE name = "add" -> AddScalarR(r, c)
+      [] name = "mul" -> MulScalarR(r, c)
+      [] name = "sub" -> IF refl THEN RSubScalarR(r, c) ELSE SubScalarR(r, c)
+
 \* ---------------- the state machine ----------------
 RawKeys == UNION {[1..n -> Labels] : n \in 0..MaxKeyLen}
 \* plain dict operands, as raw item lists: repeated labels, zero values, keys that squash to the same monomial
@@ -148,10 +171,31 @@ DoRefresh(s) == TRUE /\ Step(s, RefreshR(o[s]), <<"refresh", s>>)
 DoCopy(s, d) == s # d /\ Step(d, CopyR(o[s]), <<"copy", s, d>>)
 DoAddCons(s, x, n) == IsConstr(o[s].kind) /\ Step(s, AddConsR(o[s], x, n), <<"addcons", s, x, n>>)
 
+\* binary operators: result into slot d, operands unchanged (a dict operand on the left uses the reflected form)
+BinKeysOK(name, s, items) == IF name = "mul" THEN MulKeysOK(o[s], items) ELSE ItemsOK(o[s].kind, items)
+DoBin(name, s, j, lit, d, refl) == /\ (refl => j = 0) /\ BinKeysOK(name, s, Operand(j, lit))
+                                   /\ Step(d, BinR(name, o[s], Operand(j, lit), refl), <<"bin", s, name, j, lit, d, refl>>)
+DoBinScalar(name, s, c, d, refl) == TRUE /\ Step(d, BinScalarR(name, o[s], c, refl), <<"binscalar", s, name, c, d, refl>>)
+DoNeg(s, d) == TRUE /\ Step(d, NegR(o[s]), <<"neg", s, d>>)
+DoPow(s, e, d) == /\ (e > 1 => MulKeysOK(o[s], ItemsOf(o[s].ts))) /\ (e > 2 => Degree(PolyOf(o[s].ts)) = 0 \/ ~IsQuad(o[s].kind))
+                  /\ Step(d, PowR(o[s], e), <<"pow", s, e, d>>)
+DoDiv(s, c, d) == Divisible(o[s], c) /\ Step(d, DivR(o[s], c), <<"div", s, c, d>>)
+\* a product of quadratic-kind models whose value exceeds degree 2 must raise KeyError; nothing changes
+DoMulRaise(s, j, lit, d) == /\ IsQuad(o[s].kind) /\ ~MulKeysOK(o[s], Operand(j, lit))
+                            /\ UNCHANGED o /\ op' = <<"mulraise", s, j, lit, d>>
+\* evaluation at an assignment (set of labels that are 1 / -1): observation only
+DoValue(s, ones) == TRUE /\ UNCHANGED o /\ op' = <<"value", s, ones>>
+\* C19: getters must hand out independent objects; copy constructor; get_info / create_from_info round trip
+DoPoke(s) == TRUE /\ UNCHANGED o /\ op' = <<"poke", s>>
+DoCtor(s, d) == s # d /\ Step(d, CopyR(o[s]), <<"ctor", s, d>>)
+DoInfo(s, d) == s # d /\ Step(d, CopyR(o[s]), <<"info", s, d>>)
 \* to_enumerated() / to_qubo(): observation only, the object is unchanged
 DoToEnum(s, red) == IsLabelled(o[s].kind) /\ UNCHANGED o /\ op' = <<"toenum", s, red>>
 
 AllOps == {"setitem", "augadd", "iadd", "isub", "update", "imul", "scalar", "ipow", "clear", "refresh", "copy", "addcons", "toenum"}
+ArithOps == {"setitem", "augadd", "iadd", "isub", "imul", "scalar", "ipow", "bin", "binscalar", "neg", "pow", "div", "value", "mulraise", "refresh"}
+AliasOps == {"setitem", "augadd", "iadd", "imul", "scalar", "update", "clear", "refresh", "copy", "ctor", "info", "poke", "addcons", "bin"}
+BinNames == {"add", "sub", "mul"}
 On(x) == x \in Ops
 Next == \E s \in Slots :
           \/ On("setitem") /\ \E k \in RawKeys, v \in Vals : DoSetItem(s, k, v)
@@ -167,6 +211,18 @@ Next == \E s \in Slots :
           \/ On("copy") /\ \E d \in Slots : DoCopy(s, d)
           \/ On("addcons") /\ \E x \in Labels, n \in 0..5 : DoAddCons(s, x, n)
           \/ On("toenum") /\ \E red \in BOOLEAN : DoToEnum(s, red)
+          \/ On("bin") /\ \E name \in BinNames, d \in Slots :
+                 \/ \E j \in Slots : DoBin(name, s, j, << >>, d, FALSE)
+                 \/ \E lit \in LitDicts, refl \in BOOLEAN : DoBin(name, s, 0, lit, d, refl)
+          \/ On("binscalar") /\ \E name \in BinNames, d \in Slots, c \in Vals, refl \in BOOLEAN : DoBinScalar(name, s, c, d, refl)
+          \/ On("neg") /\ \E d \in Slots : DoNeg(s, d)
+          \/ On("pow") /\ \E d \in Slots, e \in 1..3 : DoPow(s, e, d)
+          \/ On("div") /\ \E d \in Slots, cc \in {-1, 2} : DoDiv(s, cc, d)
+          \/ On("mulraise") /\ \E d \in Slots : (\E j \in Slots : DoMulRaise(s, j, << >>, d)) \/ (\E lit \in LitDicts : DoMulRaise(s, 0, lit, d))
+          \/ On("value") /\ \E ones \in SUBSET Labels : DoValue(s, ones)
+          \/ On("poke") /\ DoPoke(s)
+          \/ On("ctor") /\ \E d \in Slots : DoCtor(s, d)
+          \/ On("info") /\ \E d \in Slots : DoInfo(s, d)
 Spec == Init /\ [][Next]_vars
 
 \* ---------------- the properties (C14), as predicates of ONE object record ----------------
